@@ -204,9 +204,15 @@ static sexp sexp_make_custom_port (sexp ctx, sexp self,
   sexp_gc_var2(res, str);
   sexp_gc_preserve2(ctx, res, str);
   str = sexp_make_string(ctx, sexp_make_fixnum(SEXP_PORT_BUFFER_SIZE), SEXP_VOID);
-  if (sexp_exceptionp(str)) return str;
+  if (sexp_exceptionp(str)) {
+    sexp_gc_release2(ctx);
+    return str;
+  }
   res = sexp_open_input_string(ctx, str);
-  if (sexp_exceptionp(res)) return res;
+  if (sexp_exceptionp(res)) {
+    sexp_gc_release2(ctx);
+    return res;
+  }
   if (mode && mode[0] == 'w') {
     sexp_pointer_tag(res) = SEXP_OPORT;
     sexp_port_cookie(res) = str;
@@ -215,7 +221,10 @@ static sexp sexp_make_custom_port (sexp ctx, sexp self,
     sexp_port_size(res) = 0;
   }
   vec = sexp_make_vector(ctx, SEXP_SIX, SEXP_VOID);
-  if (sexp_exceptionp(vec)) return vec;
+  if (sexp_exceptionp(vec)) {
+    sexp_gc_release2(ctx);
+    return vec;
+  }
   sexp_vector_set(vec, SEXP_ZERO, SEXP_FALSE);
   sexp_vector_set(vec, SEXP_ONE, sexp_port_cookie(res));
   sexp_vector_set(vec, SEXP_TWO, read);
